@@ -1076,6 +1076,11 @@ func unmarshalMap(
 			ctx,
 			key,
 			func(token *Token) (Sink, error) {
+				if keyType.Kind() == reflect.Interface && !key.Elem().IsNil() {
+					// a byte array held in an interface-typed key was marshalled as
+					// bytes; restore it as a byte array, as for untyped maps
+					key.Elem().Set(reflect.ValueOf(toComparable(key.Elem().Interface())))
+				}
 				if !key.Elem().Comparable() {
 					// e.g. a slice or map decoded into an interface-typed key
 					return nil, we.With(WithPath(ctx), BadMapKey)(UnmarshalError)
